@@ -61,7 +61,13 @@ def _jaqal_import_module_relative(mod_name, import_path):
     spec = _jaqal_find_spec_relative(top_level, import_path)
     module = importlib.util.module_from_spec(spec)
     sys.modules[mod_name] = module
-    spec.loader.exec_module(module)
+    try:
+        spec.loader.exec_module(module)
+    except BaseException:
+        # Do not leave a half-initialized module behind
+        if sys.modules.get(mod_name) is module:
+            del sys.modules[mod_name]
+        raise
 
     return module
 
@@ -83,12 +89,13 @@ def jaqal_import(
         raise ImportError("Module name may not be empty")
 
     module = sys.modules.get(mod_name)
+    evicted = {}
 
     if module and reload_module:
         if full_reload:
-            del sys.modules[mod_name]
+            evicted[mod_name] = sys.modules.pop(mod_name)
             for k in [k for k in sys.modules.keys() if k.startswith(f"{mod_name}.")]:
-                del sys.modules[k]
+                evicted[k] = sys.modules.pop(k)
             module = None
         elif relative:
             module = None
@@ -96,10 +103,16 @@ def jaqal_import(
             importlib.reload(module)
 
     if module is None:
-        if relative:
-            module = _jaqal_import_module_relative(mod_name, import_path)
-        else:
-            module = importlib.import_module(mod_name)
+        try:
+            if relative:
+                module = _jaqal_import_module_relative(mod_name, import_path)
+            else:
+                module = importlib.import_module(mod_name)
+        except BaseException:
+            # A failed import must not cost the process the modules it evicted
+            for k, v in evicted.items():
+                sys.modules.setdefault(k, v)
+            raise
 
     try:
         return getattr(module, obj_name)
